@@ -94,13 +94,12 @@ def decimal(value: _decimal.Decimal) -> bytes:
     if not isinstance(value, _decimal.Decimal):
         raise TypeError('decimal.Decimal required, received {}'.format(
             type(value)))
-    tmp = str(value)
-    if '.' in tmp:
-        decimals = len(tmp.split('.')[-1])
-        value = value.normalize()
-        raw = int(value * (_decimal.Decimal(10)**decimals))
-        return struct.pack('>Bi', decimals, raw)
-    return struct.pack('>Bi', 0, int(value))
+    exponent = value.as_tuple().exponent
+    if not isinstance(exponent, int):
+        raise TypeError('finite decimal.Decimal required, received {}'.format(
+            value))
+    decimals = -exponent if exponent < 0 else 0
+    return struct.pack('>Bi', decimals, int(value.scaleb(decimals)))
 
 
 def double(value: float) -> bytes:
